@@ -229,6 +229,12 @@ pub struct Interp<'c> {
     pub used: bool,
     pub probe_only: bool,
     pub plan_enabled: bool,
+    /// C03 reset-loop rule requested for this case
+    pub reset_loop: bool,
+    /// nested replay rule switched off (while the reset loop drives the records)
+    pub no_replay: bool,
+    /// the size feed ran out (control flow differed from the recorded round)
+    pub feed_overrun: bool,
     pub stop: bool,
     /// > 0 while executing on the *guard* of a claim
     pub in_claim: usize,
@@ -301,6 +307,9 @@ impl<'c> Interp<'c> {
             flags: Flags::default(),
             used: false,
             probe_only: false,
+            reset_loop: false,
+            no_replay: false,
+            feed_overrun: false,
             plan_enabled: false,
             stop: false,
             in_claim: 0,
@@ -378,6 +387,7 @@ impl<'c> Interp<'c> {
                 *i += 1;
                 return *s;
             }
+            self.feed_overrun = true;
         }
         let s = self.size_from_state(r, align, info);
         if let Some(l) = self.size_log.as_mut() {
